@@ -103,8 +103,9 @@ def _kind(conds: dict[str, bool]) -> str | None:
 def delimiter_paths(ix: Index) -> dict[str, list[tuple]]:
     f = ix.get("handle_fstring_progs")
     out: dict[str, list[tuple]] = {k: [] for k in KINDS}
+    from .pyflow import propagate_locals
     for p in stmt_paths(_inline_flags(f.node)):
-        conds = {x[1]: x[2] for x in p if x[0] == "cond"}
+        conds = {x[1]: x[2] for x in propagate_locals(p) if x[0] == "cond"}
         k = _kind(conds)
         if k is None:
             if p[-1][1] == "return" and not any(x[0] == "do" and "yield" in x[1] for x in p):
